@@ -207,6 +207,8 @@ func (c *connection) send(conn net.Conn, connDone chan bool) {
 				// TODO: check one-way invoke for idle detect
 				if c.invokeNum == 0 && c.idleTime.Add(c.client.config.IdleTimeout).Before(time.Now()) {
 					c.close(conn)
+					// a request may have been queued while the idle connection was being closed
+					c.reconnectIfPending()
 					return
 				}
 				continue
